@@ -2,6 +2,8 @@
 the real library, using the public API only."""
 from __future__ import annotations
 
+import json
+
 import operator
 
 from entity_query_language import (let, an, the, entity, set_of, and_, or_, not_, contains, in_, infer,
@@ -21,6 +23,8 @@ class QueryBuilder:
         self.q = q
         self.heap = heap
         self.vars = shared_vars if shared_vars is not None else {}
+        # sub-query objects live next to the variables: shared between the queries of a case exactly when those are
+        self.subs = self.vars.setdefault("_subs", {}) if shared_vars is not None else {}
         self.flats = {}
         self.sel_exprs = []
         self.query = None
@@ -95,6 +99,14 @@ class QueryBuilder:
             return concatenate(self.expr(e["e"]))
         if k == "sub":
             quant = the if e.get("quant") == "the" else an
+            if self.q.get("sharesubs"):
+                # one sub-query object per distinct sub-query expression, used wherever it occurs again (in this query,
+                # and in the other queries of the case when they share their variables)
+                key = json.dumps([self.q.get("varkeys", [])[e["i"] - 1] if self.q.get("varkeys") else e["i"], e],
+                                 sort_keys=True)
+                if key not in self.subs:
+                    self.subs[key] = quant(entity(self.var(e["i"]), self.cond(e["c"])))
+                return self.subs[key]
             c = self.cond(e["c"])
             return quant(entity(self.var(e["i"]), c))
         raise ValueError(k)
@@ -132,11 +144,19 @@ class QueryBuilder:
             from entity_query_language import HasType
             return HasType(self.expr(c["e"]), world.CLASSES[c["T"]])
         if k == "subq":
-            inner = self.cond(c["c"])
-            sel = [self.expr(s) for s in c["sel"]]
-            if c.get("desc", "entity") == "entity":
-                return an(entity(sel[0], inner))
-            return an(set_of(sel, inner))
+            def make():
+                inner = self.cond(c["c"])
+                sel = [self.expr(s) for s in c["sel"]]
+                if c.get("desc", "entity") == "entity":
+                    return an(entity(sel[0], inner))
+                return an(set_of(sel, inner))
+            if self.q.get("sharesubs"):          # as for operand sub-queries: one object per distinct expression
+                keys = self.q.get("varkeys") or list(range(1, len(self.q["vars"]) + 1))
+                key = json.dumps([keys, c], sort_keys=True)
+                if key not in self.subs:
+                    self.subs[key] = make()
+                return self.subs[key]
+            return make()
         if k == "forall":
             return for_all(self.expr(c["ue"]), self.cond(c["c"]))
         raise ValueError(k)
